@@ -306,6 +306,22 @@ def run(ctx):
         for ops in consts:
             c = instgen.Inst(g.opv["Constant"], "Constant", t, 5, ops)
             raw.append(f"disasraw 65536 983040 10 - {ty_int.text()}/{ty_f64.text()}/{c.text()} -")
+    # declared type = the declaration anywhere in the section (the last one if the id is declared twice): constants placed
+    # before their type, between two declarations of the type id; hand-made (any literal width) and as loadable binaries
+    for cops in ([instgen.Op("w", lit, 0xfffffff9)], [instgen.Op("q", g.vix["LiteralBit64"], 0xbfd0000000000000)], [instgen.Op("w", lit, 0x3fc00000)]):
+        for t, tdecl in ((1, ty_int), (2, ty_f64)):
+            c = instgen.Inst(g.opv["Constant"], "Constant", t, 5, cops)
+            ty_other = instgen.Inst(g.opv["TypeInt"], "TypeInt", None, t, [instgen.Op("w", lit, 16), instgen.Op("w", lit, 0)])
+            raw.append(f"disasraw 65536 983040 10 - {c.text()}/{tdecl.text()} -")
+            raw.append(f"disasraw 65536 983040 10 - {ty_other.text()}/{c.text()}/{tdecl.text()} -")
+            raw.append(f"disasraw 65536 983040 10 - {tdecl.text()}/{c.text()}/{ty_other.text()} -")
+    for w1 in (8, 16, 32):
+        for signed in (0, 1):
+            for tyop in ("TypeInt", "TypeFloat"):
+                tw = instgen.Inst(g.opv[tyop], tyop, None, 1, [instgen.Op("w", lit, w1)] + ([instgen.Op("w", lit, signed)] if tyop == "TypeInt" else [])).words()
+                cw = [(4 << 16) | g.opv["Constant"], 1, 2, 0xfffffff9]
+                raw.append("disasbin " + instgen.to_bytes(instgen.header(bound=10) + cw + tw).hex())
+                raw.append("disasbin " + instgen.to_bytes(instgen.header(bound=10) + tw + cw + ty_int.words()).hex())
     exts = [[], [instgen.Op("w", idref, 9)], [instgen.Op("w", idref, 9), instgen.Op("w", lit, 6)],
             [instgen.Op("w", lit, 9), instgen.Op("w", ext, 6)], [instgen.Op("w", idref, 9), instgen.Op("w", ext, 6), instgen.Op("w", idref, 3)],
             [instgen.Op("w", idref, 9), instgen.Op("w", ext, 9999)], [instgen.Op("w", idref, 8), instgen.Op("w", ext, 6)]]
